@@ -47,6 +47,16 @@ func c09Pair(c *core.Ctx, cs c09Case) {
 	if v.Major != cs.Maj || v.Minor != cs.Min {
 		c.Report("Parse modifies the caller's Version", name, cs)
 	}
+	// the verdict on the version does not depend on what is parsed: the empty input, a blank, a bare open tag
+	for _, src := range []string{"", " ", "<?php", "\n"} {
+		r2, e2 := parser.Parse([]byte(src), conf.Config{Version: &version.Version{Major: cs.Maj, Minor: cs.Min}})
+		if want && (e2 != nil || astx.IsNil(r2)) {
+			c.Report("supported version rejected", mkWhat("%s on input %q: err=%v root nil=%v", name, src, e2, astx.IsNil(r2)), cs)
+		}
+		if !want && (e2 != parser.ErrVersionOutOfRange || !astx.IsNil(r2)) {
+			c.Report("unsupported version does not yield ErrVersionOutOfRange", mkWhat("%s on input %q: err=%v, tree=%v", name, src, e2, !astx.IsNil(r2)), cs)
+		}
+	}
 	if want {
 		if err != nil || astx.IsNil(root) {
 			c.Report("supported version rejected", mkWhat("%s: err=%v root nil=%v", name, err, astx.IsNil(root)), cs)
